@@ -154,6 +154,11 @@ class BodyLocks:
             f = t.discr.local()
             if f is None or self.body.local_name(f):
                 continue
+            # a drop flag is only ever assigned constants; a condition computed by a call / comparison
+            # (`if x.is_deleted() { continue }` drops the guard in its then-branch) is not one
+            defs = self.du.full_defs(f)
+            if not defs or not all(d.kind == "assign" and d.rv.kind == "use" and d.rv.operands() and d.rv.operands()[0].is_const() for d in defs):
+                continue
             for v, tgt in t.switch_edges():
                 if v == 0:
                     continue
